@@ -267,12 +267,12 @@ class Taint:
                     name = bi[0].split(".", 1)[1]
                     if name in ("str", "repr", "len", "tuple", "list", "dict", "set", "frozenset", "next", "iter", "float", "int",
                                 "format", "sorted", "hash", "bool", "reversed", "enumerate", "vars", "dir", "sum", "min", "max",
-                                "setattr", "delattr", "getattr"):
+                                "setattr", "delattr", "getattr", "isinstance", "hasattr"):
                         out.append(Op(fi, n, "builtin:" + name, n.args[0]))
                 if isinstance(n.func, ast.Attribute) and not tg.repo and T(n.func.value):
                     out.append(Op(fi, n, "method:" + n.func.attr, n.func.value))
             elif isinstance(n, ast.Attribute) and isinstance(n.ctx, ast.Load):
-                if n.attr in SOURCE_ATTRS or n.attr in SAFE_META:
+                if n.attr in SOURCE_ATTRS or (n.attr in SAFE_META and n.attr != "__class__"):
                     continue
                 par = self.p.parent_of(n)
                 if isinstance(par, ast.Call) and par.func is n:
